@@ -18,6 +18,11 @@ import traceback
 import warnings
 
 warnings.filterwarnings('ignore')
+# single-threaded numeric libraries: the checks fork worker pools (their own and the library's); scipy's FFT thread pool, once started in the
+# parent (hilbert transform), has a pre-fork handler that can dead-lock the next fork - observed once by a sub-agent on the unchanged library.
+# (Set before numpy / scipy are imported.  A dead-lock would otherwise end as a spurious "did not terminate" report of the watchdog.)
+for _v in ('OMP_NUM_THREADS', 'OPENBLAS_NUM_THREADS', 'MKL_NUM_THREADS', 'DUCC0_NUM_THREADS', 'NUMEXPR_NUM_THREADS'):
+    os.environ.setdefault(_v, '1')
 ROOT = os.path.dirname(os.path.dirname(os.path.abspath(__file__)))
 REPO = os.environ.get('VERIF_REPO', '/repo')
 if REPO != '/repo':
